@@ -46,3 +46,16 @@ package types
 //@   requires c != nil && c.GlobalIndex != nil
 //@   modifies nothing
 //@   ensures[canonical-index-bytes] len(result) == 32 && bytesOf(seq(result), 32) == leB(giVal(c.GlobalIndex.MainnetFlag, c.GlobalIndex.RollupIndex, c.GlobalIndex.LeafIndex))
+
+// ---- the pessimistic-proof commitment (C10): keccak(new local exit root ‖ keccak(hashes of the global indexes of the
+// imported bridge exits, in order)). ppChunks is the ghost sequence of those hashes.
+//@ ghost var ppChunks map[int]Hash
+//@ func (c *Certificate) PPHashToSign
+//@   props C10
+//@   requires c != nil && forall(k, 0, len(c.ImportedBridgeExits), c.ImportedBridgeExits[k] != nil && c.ImportedBridgeExits[k].GlobalIndex != nil)
+//@   modifies ppChunks
+//@   choose ppChunks with forall(k, 0, len(c.ImportedBridgeExits), ppChunks[k] == keccak(catB(emptyB(), leB(giVal(c.ImportedBridgeExits[k].GlobalIndex.MainnetFlag, c.ImportedBridgeExits[k].GlobalIndex.RollupIndex, c.ImportedBridgeExits[k].GlobalIndex.LeafIndex)))))
+//@   ensures[chunks] forall(k, 0, len(c.ImportedBridgeExits), ppChunks[k] == keccak(catB(emptyB(), leB(giVal(c.ImportedBridgeExits[k].GlobalIndex.MainnetFlag, c.ImportedBridgeExits[k].GlobalIndex.RollupIndex, c.ImportedBridgeExits[k].GlobalIndex.LeafIndex)))))
+//@   ensures[commitment] result == keccak(catB(catB(emptyB(), bytesOf(hb(c.NewLocalExitRoot), 32)), bytesOf(hb(keccak(chainH(ppChunks, len(c.ImportedBridgeExits)))), 32)))
+//@   loop 0 invariant 0 <= rangeindex + 1 && rangeindex + 1 <= len(c.ImportedBridgeExits) && len(globalIndexHashes) == len(c.ImportedBridgeExits) && off(globalIndexHashes) == 0 && fresh(ref(globalIndexHashes))
+//@   loop 0 invariant forall(k, 0, rangeindex + 1, len(globalIndexHashes[k]) == 32 && hashOf(seq(globalIndexHashes[k])) == keccak(catB(emptyB(), leB(giVal(c.ImportedBridgeExits[k].GlobalIndex.MainnetFlag, c.ImportedBridgeExits[k].GlobalIndex.RollupIndex, c.ImportedBridgeExits[k].GlobalIndex.LeafIndex)))))
